@@ -1,7 +1,7 @@
 # -*- coding: utf-8 -*-
 """C07 - comparisons form a consistent total order with number < text < logical (K3).
 
-A 26-value pool (numbers, dates >= 1 Mar 1900, text, logicals, blank).  For one supply route the
+A 43-value pool (numbers incl. floats a few units in the last place apart, dates >= 1 Mar 1900, text, logicals, blank).  For one supply route the
 complete relation matrix  rel[a][b][op]  (all ordered pairs of the pool x six operators
 through Parser.parse) is computed once per worker process; every law is then read off the matrix:
 
@@ -30,7 +30,10 @@ def D(*a):
     return {'$dt': datetime.datetime(*a).isoformat()}
 
 
-NUMBERS = [-2.5, -1, 0, 0.5, 1, 2, 10, 43789, 43789.25, 2 ** 53, 2 ** 53 + 1, 10 ** 17, 10 ** 17 + 1]
+# ... and floats a few units in the last place apart (0.1+0.2 beside 0.3, the neighbours of 1 and of a date-time serial): they are
+# different numbers, so exactly one of < = > holds - an equality 'to 15 digits' beside exact < and > breaks the trichotomy
+NUMBERS = [-2.5, -1, 0, 0.5, 1, 2, 10, 43789, 43789.25, 2 ** 53, 2 ** 53 + 1, 10 ** 17, 10 ** 17 + 1,
+           0.3, 0.30000000000000004, 1.0000000000000002, 1.0000000000000009, 43789.250000000007]
 DATES = [D(1900, 3, 1), D(2000, 2, 29), D(2019, 11, 20), D(2019, 11, 20, 6, 0), D(9999, 12, 31),
          D(2019, 11, 20, 6, 0, 0, 250000), D(2019, 11, 20, 6, 0, 0, 750000)]     # two instants inside one second
 TEXTS = ['', '1', '10', '9', '-1', 'a', 'ab', 'b', 'true', 'Apple', 'apple', 'B',
@@ -200,8 +203,8 @@ def matrix(env, route):
 
 class Order(Sub):
     name = 'c07.order'
-    rule = ('one case = one row of the 26x26 relation matrix of a supply route (matrix = every ordered pair x '
-            '{<,=,>,<=,>=,<>}, evaluated once per worker): pair laws for the 26 pairs of the row, transitivity '
+    rule = ('one case = one row of the %dx%d relation matrix' % (_N, _N) + ' of a supply route (matrix = every ordered pair x '
+            '{<,=,>,<=,>=,<>}, evaluated once per worker): pair laws for all the pairs of the row, transitivity '
             'of < and = for the 1 024 triples that start with the row value; non-trivial = pairs of two different '
             'value kinds (number/date/text/logical/blank) and triples spanning >= 2 kinds')
     min_cases = 26
